@@ -39,6 +39,9 @@ def _probe_frame(b0, n, rng=None):
     return {"fin": fin, "rsv": rsv, "op": op, "hex": payload.hex()}
 
 
+TRAILER = {"fin": 1, "op": 2, "hex": b"AFTER".hex()}
+
+
 def _msg_level_only(fr):
     op, rsv, fin, n = fr["op"], fr.get("rsv", 0), fr["fin"], len(fr["hex"]) // 2
     return op in (8, 9, 10) and not rsv and (not fin or (n > 125 and op != 8))
@@ -90,6 +93,9 @@ def expand(item, seed):
                     if api == "recv_frame" and item["state"] != "idle":
                         continue
                     yield {"frames": PREFIX[item["state"]] + [fr], "api": api, "state": item["state"], "seed": 1}
+                    if n >= 2 and api != "recv" and (b0 & 0x70 or (b0 & 0xF) not in (0, 1, 2, 8, 9, 10) or ((b0 & 0xF) >= 8 and not b0 & 0x80 and api != "recv_frame")):
+                        # refused whatever the state: the caller catches the exception and receives again
+                        yield {"frames": PREFIX[item["state"]] + [fr, dict(TRAILER)], "api": api, "state": item["state"], "seed": 1, "again": True}
     elif k in ("codes", "codes_dense"):
         codes = range(item["lo"], item["hi"]) if k == "codes" else _dense_codes()
         for c in codes:
@@ -119,6 +125,10 @@ def expand(item, seed):
             yield {"frames": spec, "api": "recv_data_frame_ctrl", "state": "word", "word": w, "seed": 1}
             if len(w) <= 3:
                 yield {"frames": spec, "api": "recv", "state": "word", "word": w, "seed": 1}
+            if 2 <= len(w) <= 3:
+                # a receive timeout between the first two frames of the history: the verdict is the same
+                g = {str(len(frames_from(spec[:1])[0])): 1}
+                yield {"frames": spec, "api": "recv_data_frame_ctrl", "state": "word", "word": w, "seed": 1, "gaps": g}
             if len(w) <= 4:
                 # the sequencing rules do not depend on how messages are handed to the caller: per-fragment delivery too
                 yield {"frames": spec, "api": "recv_data_frame_ctrl", "state": "word", "word": w, "fire_cont": True, "seed": 1}
@@ -162,6 +172,13 @@ def gen(rng):
     sc = {"frames": spec, "api": api, "state": "rand:" + cls, "sizes": [rng.choice((1, 2, 3, 100))], "seed": rng.randrange(1 << 30)}
     if api != "recv" and rng.random() < 0.3:
         sc["fire_cont"] = True
+    if cls in ("rsv", "opcode", "close1", "close_code", "ctl_long") and rng.random() < 0.4:
+        sc["frames"] = spec + [dict(TRAILER)]
+        sc["again"] = True
+    elif len(spec) >= 2 and rng.random() < 0.25:
+        # the receive call times out between two frames of the history (once or twice) and is called again
+        _, fl = frames_from(spec)
+        sc["gaps"] = {str(fl[rng.randrange(len(fl) - 1)].end): rng.choice((1, 1, 2))}
     return sc
 
 
@@ -172,7 +189,14 @@ def run(sc, choices=None):
         api = sc["api"]
         fire = bool(sc.get("fire_cont"))
         cfg = {"api": api, "timeout": 4 * S, "end": "eof", "sizes": list(sc.get("sizes", ())), "max_calls": len(frames) + 4,
-               "step_cap": 1_500_000, "fire_cont": fire}
+               "step_cap": 1_500_000, "fire_cont": fire, "gaps": dict(sc.get("gaps") or {})}
+        # 'gaps': receive timeouts (the caller retries) at the given stream offsets - between two frames of a history the
+        # sequencing rules still see the same history
+        for p_ in cfg["gaps"]:
+            if not 0 <= int(p_) <= len(stream) or not 1 <= int(cfg["gaps"][p_]) <= 2:
+                raise InvalidScenario("gaps")
+        if cfg["gaps"] and (sc.get("again") or sc.get("after_refused") or sc.get("write_fail")):
+            raise InvalidScenario("gaps: plain histories only")
         if fire and api == "recv":
             raise InvalidScenario("recv() in per-fragment mode is not pinned down")
     except (KeyError, TypeError, ValueError) as e:
@@ -192,6 +216,8 @@ def run(sc, choices=None):
             raise InvalidScenario("after_refused")
         cfg["continue_after_exc"] = True
         cfg["max_calls"] = len(frames) + 6
+    if sc.get("again"):
+        return _run_again(sc, res, stream, frames, api, fire, cfg)
     out = run_recv(int(sc.get("seed", 1)), stream, cfg, res)
     last = frames[-1]
     b0 = (last.fin << 7) | (last.rsv << 4) | last.opcode
@@ -239,6 +265,47 @@ def run(sc, choices=None):
     res.sig = repr((api, sc.get("state"), sc.get("word"), b0, lcls, extra, len(frames), fire))
     res.nontrivial = cls != "legal" or len(frames) > 1
     res.probes["class_" + cls] = 1
+    return res
+
+
+def _byte_strings(v):
+    if isinstance(v, list):
+        if len(v) == 2 and v[0] in ("b", "s") and isinstance(v[1], str):
+            yield bytes.fromhex(v[1])
+        else:
+            for x in v:
+                yield from _byte_strings(x)
+
+
+def _run_again(sc, res, stream, frames, api, fire, cfg):
+    """'never delivered': the caller catches the protocol exception and calls the receive function again.  What that call
+    does with a connection that has just failed is not pinned down (the stream goes on with one more legal frame), except that
+    it must not hand over the payload of the frame that was refused."""
+    from ..recvdrv import predict, obs_matches, _clause_for
+    if len(frames) < 2 or sc.get("after_refused"):
+        raise InvalidScenario("again: refused frame + one trailing frame")
+    judged, refused = frames[:-1], frames[-2]
+    exp, _, complete = predict(judged, api, fire, False, "none")
+    if not complete or not exp or exp[-1][0] != "exc" or exp[-1][1] != "WebSocketProtocolException":
+        raise InvalidScenario("again: the frame before the trailer must be one the protocol rules refuse")
+    cfg = dict(cfg, continue_after_exc=True, max_calls=len(frames) + 4)
+    out = run_recv(int(sc.get("seed", 1)), stream, cfg, res)
+    obs = out["obs"]
+    i = next((j for j, o in enumerate(obs) if o[0] == "exc"), None)
+    cls = _illegal_class(judged)
+    ctx = f"{'recv_frame' if api == 'recv_frame' else 'message_level'}/{cls}/receiving_again"
+    why = obs_matches(obs[:i + 1] if i is not None else obs, exp, True, fire)
+    if why:
+        res.violate(_clause_for(obs, exp), ctx, why)
+    elif len(refused.payload) >= 2:
+        for j, o in enumerate(obs[i + 1:], i + 1):
+            if o[0] == "ret" and any(refused.payload in b for b in _byte_strings(o[1])):
+                res.violate("refused_frame_delivered_by_a_later_call", ctx,
+                            f"call #{j} after the protocol exception returned the payload of the frame that had been refused: {str(o[1])[:80]}")
+                break
+    res.sig = repr(("again", api, cls, fire, len(refused.payload) >= 2))
+    res.nontrivial = True
+    res.probes["receiving_again_after_refused_frame"] = 1
     return res
 
 
@@ -295,7 +362,7 @@ def gen(rng):
         sc["no_multithread"] = True  # WebSocket(enable_multithread=False): the no-op lock stand-in
     if rng.random() < 0.15:
         sc["logtrace"] = True  # enableTrace(True): frames are formatted for the log on their way
-    if rng.random() < 0.08 and not sc.get("sender"):
+    if rng.random() < 0.08 and not sc.get("sender") and not sc.get("gaps"):
         sc["write_fail"] = rng.choice(("EPIPE", "ECONNRESET"))  # every write of the client fails: replies are lost, deliveries are not
     return sc
 
@@ -331,6 +398,7 @@ def expand(item, seed):
         for i in range(item["count"]):
             sc = _gen0(random.Random(derive_seed(seed, ID + "R", i)))
             sc["prior"] = dict(_PRIOR_LOSSES[i % len(_PRIOR_LOSSES)])
+            sc.pop("gaps", None)
             yield sc
         return
     for sc in _expand0(item, seed):
